@@ -184,12 +184,16 @@ type Style struct {
 	// 2020-01-01) are written plain, as OpenAPI documents usually spell response codes; the key node
 	// then carries a non-string tag while its text is the member name
 	PlainNumKeys bool
+	// BlockScalars: strings containing line breaks are written as literal block scalars (| |- |+),
+	// single lines ending in a line break also as folded ones (>) when Folded is set
+	BlockScalars bool
+	Folded       bool
 }
 
 var numLikeKey = regexp.MustCompile(`^([0-9][0-9A-Za-z_.+-]*|true|false|null|True|NULL)$`)
 
 func (st Style) String() string {
-	return fmt.Sprintf("%s/quote=%s/comments=%v/indent=%d/keyquote=%v/marker=%v/anchors=%v/plainnumkeys=%v", st.Format, st.Quote, st.Comments, st.Indent, st.KeyQuote, st.Marker, st.Anchors, st.PlainNumKeys)
+	return fmt.Sprintf("%s/quote=%s/comments=%v/indent=%d/keyquote=%v/marker=%v/anchors=%v/plainnumkeys=%v", st.Format, st.Quote, st.Comments, st.Indent, st.KeyQuote, st.Marker, st.Anchors, st.PlainNumKeys) + fmt.Sprintf("/blockscalars=%v/folded=%v", st.BlockScalars, st.Folded)
 }
 
 func (st Style) IsJSON() bool { return st.Format == "json" || st.Format == "jsonind" }
@@ -225,6 +229,49 @@ func (st Style) str(s string, isKey bool) string {
 		}
 	}
 	return jsonStr(s)
+}
+
+// blockScalar returns the header and the content lines of a literal (or folded) block scalar for s,
+// or ok=false when s cannot be written that way without an indentation indicator.
+func (st Style) blockScalar(s string) (header string, lines []string, ok bool) {
+	if !st.BlockScalars || !strings.Contains(s, "\n") {
+		return "", nil, false
+	}
+	for _, r := range s {
+		if r != '\n' && (r < 0x20 || r == 0x7f || (r >= 0x80 && r < 0xa0) || r == 0x2028 || r == 0x2029 || r == 0xfeff) {
+			return "", nil, false
+		}
+	}
+	body := strings.TrimRight(s, "\n")
+	trail := len(s) - len(body)
+	if body == "" {
+		return "", nil, false
+	}
+	lines = strings.Split(body, "\n")
+	for _, l := range lines {
+		if l != "" && (l[0] == ' ' || l[0] == '\t' || l[len(l)-1] == ' ' || l[len(l)-1] == '\t') {
+			return "", nil, false
+		}
+	}
+	if lines[0] == "" {
+		return "", nil, false
+	}
+	ind := "|"
+	if st.Folded && len(lines) == 1 {
+		ind = ">"
+	}
+	switch {
+	case trail == 0:
+		header = ind + "-"
+	case trail == 1:
+		header = ind
+	default:
+		header = ind + "+"
+		for i := 1; i < trail; i++ {
+			lines = append(lines, "")
+		}
+	}
+	return header, lines, true
 }
 
 func (st Style) scalar(n *Node) string {
@@ -443,7 +490,19 @@ func (st Style) emitBlock(n *Node, w *writer, ind string, inline bool, a *anchor
 			v := n.Vals[i]
 			v.KL, v.KC = w.line, w.col
 			w.write(st.str(k, true) + ":")
-			if v.Kind == 'v' {
+			if hdr, lines, ok := st.blockScalar(v.Value); ok && v.Kind == 'v' && v.Tag == "str" {
+				w.write(" ")
+				w.start(v)
+				w.write(hdr + "\n")
+				for _, l := range lines {
+					if l == "" {
+						w.write("\n")
+					} else {
+						w.write(ind + pad + l + "\n")
+					}
+				}
+				v.EL, v.EC = w.line-1, 1<<20
+			} else if v.Kind == 'v' {
 				w.write(" ")
 				w.start(v)
 				w.write(st.scalar(v))
@@ -476,7 +535,19 @@ func (st Style) emitBlock(n *Node, w *writer, ind string, inline bool, a *anchor
 				w.start(n)
 				first = false
 			}
-			if v.Kind == 'v' {
+			if hdr, lines, ok := st.blockScalar(v.Value); ok && v.Kind == 'v' && v.Tag == "str" {
+				w.write("- ")
+				w.start(v)
+				w.write(hdr + "\n")
+				for _, l := range lines {
+					if l == "" {
+						w.write("\n")
+					} else {
+						w.write(ind + "  " + l + "\n")
+					}
+				}
+				v.EL, v.EC = w.line-1, 1<<20
+			} else if v.Kind == 'v' {
 				w.write("- ")
 				w.start(v)
 				w.write(st.scalar(v))
@@ -549,6 +620,9 @@ func AllStyles() []Style {
 			}
 		}
 	}
+	// strings with line breaks as block scalars
+	styles = append(styles, Style{Format: "block", Quote: "plain", Indent: 2, BlockScalars: true}, Style{Format: "block", Quote: "double", Indent: 4, BlockScalars: true, Folded: true, KeyQuote: true},
+		Style{Format: "block", Quote: "single", Indent: 2, BlockScalars: true, Folded: true, Comments: true, Marker: true})
 	// numeric-looking keys written plain
 	styles = append(styles, Style{Format: "block", Quote: "plain", Indent: 2, PlainNumKeys: true}, Style{Format: "block", Quote: "double", Indent: 4, Comments: true, PlainNumKeys: true},
 		Style{Format: "flow", Quote: "plain", PlainNumKeys: true}, Style{Format: "block", Quote: "single", Indent: 2, Anchors: true, PlainNumKeys: true})
@@ -568,6 +642,7 @@ func FewStyles() []Style {
 		{Format: "block", Quote: "plain", Indent: 2}, {Format: "block", Quote: "double", Indent: 4, Comments: true, KeyQuote: true, Marker: true},
 		{Format: "block", Quote: "single", Indent: 2, Comments: true}, {Format: "flow", Quote: "plain"}, {Format: "flow", Quote: "double", KeyQuote: true},
 		{Format: "block", Quote: "plain", Indent: 2, Anchors: true}, {Format: "block", Quote: "plain", Indent: 2, PlainNumKeys: true},
+		{Format: "block", Quote: "plain", Indent: 2, BlockScalars: true, Folded: true},
 	}
 }
 
